@@ -1768,6 +1768,11 @@ func (d *Data) storeLabelElements(ctx *datastore.VersionedCtx, batch storage.Bat
 				elems = append(elems, elem)
 				delta.Add = append(delta.Add, ElementPos{Label: label, Kind: elem.Kind, Pos: elem.Pos})
 			} else {
+				if elems[i].Kind != elem.Kind {
+					// subscribers like labelsz count per kind, so a changed kind is a deletion plus an addition
+					delta.Del = append(delta.Del, ElementPos{Label: label, Kind: elems[i].Kind, Pos: elem.Pos})
+					delta.Add = append(delta.Add, ElementPos{Label: label, Kind: elem.Kind, Pos: elem.Pos})
+				}
 				elems[i] = elem // replace properties if same position
 			}
 		}
